@@ -117,7 +117,7 @@ def op_wire(op):
     if kind == "E":
         return "E:" + hx(op[1])
     if kind == "V":
-        return "V:%s:%s" % (hx(op[1]), canon(op[2]))
+        return "V:%s:%s:%s" % (hx(op[1]), canon(op[2]), "1" if op[3] else "0")
     if kind == "XL":
         return "XL:%s:%s" % (hx(op[1]), ";".join(canon(v) for v in op[2]) or ";")
     if kind == "XD":
